@@ -595,7 +595,7 @@ class Inliner:
         if r is None or d <= 0:
             return None
         callee, skip = r[0], r[1]
-        if callee.name in stack or callee.args.kwarg or _contains(callee, (ast.YieldFrom, ast.Await)):
+        if callee.name in stack or callee.args.kwarg or _contains(callee, (ast.Await,)):
             return None
         body = real_body(callee)
         if not body:
@@ -622,7 +622,7 @@ class Inliner:
             selfname = (callee.args.posonlyargs + callee.args.args)[0].arg
             if not (isinstance(call.func.value, ast.Name) and call.func.value.id == selfname):
                 env[selfname] = copy.deepcopy(call.func.value)
-        if _contains(callee, (ast.Yield,)):
+        if _contains(callee, (ast.Yield, ast.YieldFrom)):
             # a generator helper `for v in S: <refuse or> yield E`: the generator expression (E' for v in S), E' refusing with raise_(..)
             real = [x for x in body if not (isinstance(x, ast.Expr) and isinstance(x.value, ast.Constant))]
             if len(real) != 1 or not isinstance(real[0], ast.For) or real[0].orelse:
@@ -630,6 +630,33 @@ class Inliner:
             lp = real[0]
             tn = {n.id for n in ast.walk(lp.target) if isinstance(n, ast.Name)}
             if tn & set(env):
+                return None
+            # nested loops / filters around one `yield E` or `yield from X`: the generator expression with the same clauses
+            if len(lp.body) == 1 and (isinstance(lp.body[0], (ast.For, ast.If)) or (isinstance(lp.body[0], ast.Expr) and isinstance(lp.body[0].value, ast.YieldFrom))):
+                gens = []
+
+                def nest(st):
+                    if isinstance(st, ast.For) and not st.orelse and len(st.body) == 1 and not st.type_comment:
+                        gens.append(ast.comprehension(target=copy.deepcopy(st.target), iter=copy.deepcopy(st.iter), ifs=[], is_async=0))
+                        return nest(st.body[0])
+                    if isinstance(st, ast.If) and not st.orelse and len(st.body) == 1 and gens:
+                        gens[-1].ifs.append(copy.deepcopy(st.test))
+                        return nest(st.body[0])
+                    if isinstance(st, ast.Expr) and isinstance(st.value, ast.Yield) and st.value.value is not None:
+                        return copy.deepcopy(st.value.value)
+                    if isinstance(st, ast.Expr) and isinstance(st.value, ast.YieldFrom):
+                        self.counter += 1
+                        v_ = f"y{self.counter}_"
+                        gens.append(ast.comprehension(target=ast.Name(id=v_, ctx=ast.Store()), iter=copy.deepcopy(st.value.value), ifs=[], is_async=0))
+                        return ast.Name(id=v_, ctx=ast.Load())
+                    return None
+                elt = nest(lp)
+                bound = {n.id for g in gens for n in ast.walk(g.target) if isinstance(n, ast.Name)}
+                if elt is not None and not (bound & set(env)) and not any(isinstance(n, (ast.Yield, ast.YieldFrom, ast.NamedExpr)) for g in gens for x in [g.iter, *g.ifs] for n in ast.walk(x)):
+                    val = norm._Subst(dict(env)).visit(ast.GeneratorExp(elt=elt, generators=gens))
+                    ast.copy_location(val, call)
+                    ast.fix_missing_locations(val)
+                    return val
                 return None
 
             class Y(ast.NodeTransformer):
@@ -755,7 +782,7 @@ class Inliner:
                 if n is top or self.cond == 0:
                     # evaluated exactly once with the statement: a branching / refusing helper is hoisted and inlined as statements
                     r = me.lookup(n)
-                    if r is not None and _contains(r[0], (ast.If, ast.Raise, ast.Try, ast.For, ast.While)) and not _contains(r[0], (ast.Yield,)):
+                    if r is not None and _contains(r[0], (ast.If, ast.Raise, ast.Try, ast.For, ast.While)) and not _contains(r[0], (ast.Yield, ast.YieldFrom)):
                         return n            # (a generator helper is lazy: it can only become a generator expression)
                 v = me.expr_value(n, d, stack)
                 return v if v is not None else n
@@ -1654,6 +1681,51 @@ class Canon:
             scan(m.tree, False)
         return set() if "*" in other else ctor - other
 
+    def explicit_base_init(self, stmts, module, cls):
+        """Base.__init__(self, a, f=b) with Base a dataclass of the receiver's MRO whose constructor is the generated one:
+        the field assignments it performs (self.f = value, in field order; defaults for the fields not passed)"""
+        if cls is None:
+            return stmts
+        out = []
+        for s_ in stmts:
+            new = None
+            c_ = s_.value if isinstance(s_, ast.Expr) and isinstance(s_.value, ast.Call) else None
+            if c_ is not None and isinstance(c_.func, ast.Attribute) and c_.func.attr == "__init__" and isinstance(c_.func.value, (ast.Name, ast.Attribute)) \
+                    and c_.args and isinstance(c_.args[0], ast.Name) and c_.args[0].id == "self" \
+                    and not any(isinstance(a, ast.Starred) for a in c_.args) and not any(k.arg is None for k in c_.keywords):
+                base = module.resolve(c_.func.value)
+                if isinstance(base, Class) and base in cls.mro and base.is_dataclass and base.find_method("__init__")[1] is None \
+                        and base.find_method("__post_init__")[1] is None:
+                    fs = [f for f in base.all_fields() if f.init]
+                    names = [f.name for f in fs]
+                    vals = dict(zip(names, c_.args[1:]))
+                    ok = len(c_.args) - 1 <= len(names)
+                    for k in c_.keywords:
+                        if k.arg in names and k.arg not in vals:
+                            vals[k.arg] = k.value
+                        else:
+                            ok = False
+                    assigns = []
+                    for f in fs:
+                        v = vals.get(f.name)
+                        if v is None and f.default is not None:
+                            v = copy.deepcopy(f.default)
+                        elif v is None and f.default_factory is not None:
+                            v = ast.Call(func=copy.deepcopy(f.default_factory), args=[], keywords=[])
+                        elif v is None:
+                            ok = False
+                            break
+                        assigns.append(ast.copy_location(ast.Assign(targets=[ast.Attribute(value=ast.Name(id="self", ctx=ast.Load()), attr=f.name, ctx=ast.Store())], value=v), s_))
+                    # (arguments are evaluated before any assignment: only pure arguments keep the order irrelevant)
+                    if ok and all(norm.is_pure(a, _PURE_EXT) for a in vals.values()):
+                        new = [ast.fix_missing_locations(a) for a in assigns]
+            if new is None:
+                _recurse_blocks(s_, lambda b_: self.explicit_base_init(b_, module, cls))
+                out.append(s_)
+            else:
+                out += new
+        return out
+
     def fold_enum_tests(self, stmts, module):
         """E.A == E.B between two members of one Enum class of the program (distinct literal values) is a constant; an `if` /
         conditional expression on a constant keeps the branch taken"""
@@ -2085,6 +2157,7 @@ class Canon:
         b = lift_ifexp(b)
         b = lift_walrus(b)
         b = norm.first_match_to_next(b)
+        b = self.explicit_base_init(b, module, cls)
         look = self._lookup(module, cls, fn, set(inline), set(keep), accessors, supers)
         from .genloop import inline_generator_loops, inline_guard_helpers
         b = inline_generator_loops(b, look)       # loops over unknown generator helpers: the helper's loop with the body at its yield
